@@ -496,3 +496,12 @@ func fp(sb *strings.Builder, v reflect.Value, depth int) {
 		fmt.Fprintf(sb, "%s(?)", v.Type())
 	}
 }
+
+// Canon2 returns the bindings with every representation choice removed.
+func (b Bindings) Canon2() Bindings {
+	out := make(Bindings, len(b))
+	for k, s := range b {
+		out[k] = s.Canon()
+	}
+	return out
+}
